@@ -15,7 +15,7 @@ PROPS = {
                         'claimed domain: sets built by MakeConnectionSet/GetAllTCPConnections/AddConnection (on a set not in AllowAll form), then Union/Intersection/Subtract/Copy/ReplaceNamedPortWithMatchingPortNum'],
     },
     'C01': {
-        'lean': ['Netpol.Properties.C01'],
+        'lean': ['Netpol.Properties.C01', 'Netpol.Tie.Procs'],
         'families': [('list', 1500, 60000), ('mut', 300, 10000), ('render', 200, 8000)],
         'accept_props': ['C01'],
         'rule': 'generated worlds (1-3 namespaces, 1-5 workloads/pods, 0-4 NetworkPolicies, optional ANPs/BANP) rendered to a directory and '
@@ -24,7 +24,7 @@ PROPS = {
         'assumptions': ['World.Valid inputs: protocols TCP/UDP/SCTP, ports 1..65535, well-formed selectors, IPv4 CIDRs'],
     },
     'C02': {
-        'lean': ['Netpol.Properties.C02', 'Netpol.Tie.Consts'],
+        'lean': ['Netpol.Properties.C02', 'Netpol.Tie.Consts', 'Netpol.Tie.Procs'],
         'families': [('list', 1500, 60000), ('hist', 400, 20000), ('evalw', 100, 5000)],
         'accept_props': ['C02', 'C15', 'C03'],
         'shard_min': 50,
@@ -51,7 +51,7 @@ PROPS = {
         'assumptions': ['pods with one owner key have equal container ports is NOT assumed: the generator produces the excluded point too'],
     },
     'C03': {
-        'lean': ['Netpol.Properties.C03'],
+        'lean': ['Netpol.Properties.C03', 'Netpol.Tie.Procs'],
         'families': [('evalw', 240, 10000), ('hist', 400, 30000)],
         'shard_min': 20,
         'rule': 'evalw: worlds, every ordered pair of pods / 11 probe addresses x 3 protocols x 34 probe ports (every generated port and its neighbours): CheckIfAllowed against '
